@@ -21,14 +21,15 @@ Definition len {A} (l : list A) : N := N.of_nat (length l).
 Inductive item := Str (b : bytes) | Lst (l : list item).
 
 (* ---- big-endian integers (putint / readUint / binary.BigEndian) ---------- *)
-Fixpoint to_be_fuel (fuel : nat) (n : N) (acc : bytes) : bytes :=
+(* little-endian base-256 digits, fuel = number of bits *)
+Fixpoint to_le_fuel (fuel : nat) (n : N) : bytes :=
   match fuel with
-  | O => acc
-  | S f => if n =? 0 then acc else to_be_fuel f (n / 256) (n mod 256 :: acc)
+  | O => []
+  | S f => if n =? 0 then [] else n mod 256 :: to_le_fuel f (n / 256)
   end.
 (* minimal big-endian representation; 0 is the empty string (putint is only
    called on non-zero values, big.Int.Bytes() of 0 is empty) *)
-Definition to_be (n : N) : bytes := to_be_fuel (N.to_nat (N.size n)) n [].
+Definition to_be (n : N) : bytes := rev (to_le_fuel (N.to_nat (N.size n)) n).
 
 Fixpoint of_be_acc (acc : N) (l : bytes) : N :=
   match l with [] => acc | b :: r => of_be_acc (acc * 256 + b) r end.
@@ -60,7 +61,7 @@ Definition encode_seq (l : list item) : bytes := flat_map encode l.
 Fixpoint fits (i : item) : bool :=
   match i with
   | Str b => len b <? 2^64
-  | Lst l => (len (encode (Lst l)) <? 2^64) && forallb fits l
+  | Lst l => (len (flat_map encode l) <? 2^64) && forallb fits l
   end.
 
 (* every byte of the item is a byte *)
